@@ -4,6 +4,14 @@ import argparse, sys
 from . import registry, kani_run
 
 
+
+def _mod_cfg(gi):
+    """cfg predicate under which a group's harness module is compiled: harness files are written for one word size
+    (64 unless the group says 'word': 32) and optionally one feature configuration ('mod_cfg')."""
+    w = 'force_bits = "32"' if gi.get('word') == 32 else 'not(force_bits = "32")'
+    return 'all(%s, %s)' % (w, gi['mod_cfg']) if gi.get('mod_cfg') else w
+
+
 def main():
     ap = argparse.ArgumentParser()
     ap.add_argument('group')
@@ -17,7 +25,7 @@ def main():
     gi = registry.KANI[a.group]
     s = kani_run.Scratch(a.repo)
     try:
-        pre = s.inject(gi['target'], gi['file'], 'verif_kani_' + a.group, gi.get('mod_cfg'))
+        pre = s.inject(gi['target'], gi['file'], 'verif_kani_' + a.group, _mod_cfg(gi))
         names = [h for h, hi in gi['harnesses'].items()
                  if (not a.harness or h in a.harness) and (a.thorough or hi.get('tier', 'quick') == 'quick' or a.harness)]
         r = kani_run.run_kani(s, gi['package'], [pre + '::' + h for h in names],
